@@ -423,6 +423,9 @@ def _pe_side(case, sdesc, SI, dtype, jit=False):
     else:
       inv = J(lambda s, eta=eta: eq.implicit_inverse(s, eta))(state)
     out[f'inverse{frac}'] = cv.tree(inv, rate=False, split00=True)
+    # backward check of this execution's own solve: (1 - eta L) inverse(x) should give x back
+    back = inv + (-eta) * J(eq.implicit_terms)(inv)
+    out[f'back{frac}'] = cv.tree(back, rate=False, split00=True)
   step = J(model.make_step(eq, dt, case['integrator']))
   s = state
   for n in range(1, case['nsteps'] + 1):
@@ -482,13 +485,26 @@ def _run_pe(case, M):
   csc = dict(ssc)
   for k in A['c00']:
     csc[k] = max(ssc[k], A['c00'][k], B['c00'][k])
+  # how accurately does each execution solve its own (non-dimensional, possibly badly scaled) linear
+  # system?  Two executions cannot agree better than that, so the tolerance of the comparisons that
+  # contain the solve is relaxed in proportion to the measured backward error, at most 100x.
+  delta = 0.0
+  for side in (A, B):
+    for frac in (0.5, 1.0):
+      for k, v in side[f'back{frac}'].items():
+        if csc.get(k, 0) > 0:
+          delta = max(delta, float(np.max(np.abs(v - side['state0'][k]))) / csc[k])
+  M.note('implicit_solve_backward_error_max', delta)
+  tol_inv = min(max(tol, 10 * delta), 100 * tol)
+  tol_step = lambda n: min(max(tol, 40 * n * delta), 100 * tol)
+  M.cover('tolerance of solve-containing comparisons', 'nominal' if tol_inv == tol else 'relaxed (badly scaled solve)')
   compare(M, 'si_equal_input_state', A['state0'], B['state0'], tol, dict(info, what='input'), count=False)
   compare(M, 'si_equal_explicit', A['explicit'], B['explicit'], tol, dict(info, what='explicit'), differ=differ)
   compare(M, 'si_equal_implicit', A['implicit'], B['implicit'], tol, dict(info, what='implicit'), differ=differ)
   compare(M, 'si_equal_total_tendency', A['total'], B['total'], tol, dict(info, what='total'), differ=differ,
           scales=_max_scales(A['explicit'], A['implicit'], A['total']))
   for frac in (0.5, 1.0):
-    compare(M, 'si_equal_implicit_inverse', A[f'inverse{frac}'], B[f'inverse{frac}'], tol,
+    compare(M, 'si_equal_implicit_inverse', A[f'inverse{frac}'], B[f'inverse{frac}'], tol_inv,
             dict(info, what=f'eta={frac}dt', method=case.get('inv_method') if eqk == 'dry' else 'split'),
             differ=differ, scales=csc)
   last = f"step{case['nsteps']}"
@@ -507,7 +523,7 @@ def _run_pe(case, M):
       # a field may grow along the run (adjustment): scale = largest magnitude seen so far
       for k in a:
         csc[k] = max(csc.get(k, 0.0), float(np.max(np.abs(a[k]))) if a[k].size else 0.0)
-      compare(M, 'si_equal_steps', a, b, tol, dict(info, what=f'step{n}'), differ=differ, scales=csc)
+      compare(M, 'si_equal_steps', a, b, tol_step(n), dict(info, what=f'step{n}'), differ=differ, scales=csc)
     M.cover('trajectory length', str(case['nsteps']))
   M.sample({'scales': case['scales'], 'grid': case['grid'], 'eq': eqk, 'layers': layers,
             'integrator': case['integrator'], 'steps': case['nsteps'], 'dt_s': case['dt_s'],
